@@ -142,6 +142,16 @@ theorem C01_lex_value (dia : Dialect) (p : Presentation) (s ctx : Str) (line col
   simp only [haw]
   rw [C01_lex_value_loop dia p s ctx line col _ pol log hadm hfit hstart hctx]
 
+/-- C01_lex_value in terms of the `nextValue` helper (start of input: line 1, column 0, nothing seen yet): the value text
+    and the remaining input come back, and nothing was reported.  (At column 0 a string beginning with `;` has no bare
+    presentation — `startOk`.) -/
+theorem C01_nextValue (dia : Dialect) (p : Presentation) (s ctx : Str)
+    (hadm : admissible dia p s = true) (hfit : linesFit 0 (renderValue p s) = true)
+    (hstart : startOk p s 0 = true) (hctx : followOk dia ctx = true) :
+    nextValue dia (renderValue p s ++ ctx) = some (p.tokType, s, ctx) := by
+  have := C01_lex_value dia p s ctx 1 0 .end_ acceptAll [] rfl hadm hfit hstart hctx
+  simp only [nextValue, Scan.init, this]
+
 /-- **C01_lex_sep** — layout independence: a run of whitespace atoms (blanks, line terminators, comments) of ANY shape
     and length in front of ANY remaining input `R` produces no token and no report; next_token behaves exactly as if
     called behind the run, at the position the specification gives, with "whitespace seen".  (`hfirst`: a comment
@@ -383,6 +393,8 @@ example : admissible .cif2 .bare [97, 0xD83D, 0xDE00] = true ∧ followOk .cif2 
 example : ∃ l c, nextToken .cif2 ⟨renderValue .squote [97, 0xD83D, 0xDE00] ++ [93], 1, 1, .olist⟩ acceptAll []
     = .ok (⟨.qvalue, [97, 0xD83D, 0xDE00], l, c⟩, ⟨[93], l, c, .qvalue⟩) [] :=
   ⟨_, _, C01_lex_value .cif2 .squote [97, 0xD83D, 0xDE00] [93] 1 1 .olist acceptAll [] rfl (by decide) (by decide) (by decide) (by decide)⟩
+example : nextValue .cif2 (renderValue .tdquote [97, 10, 0xD83D, 0xDE00] ++ [32, 120]) = some (.qvalue, [97, 10, 0xD83D, 0xDE00], [32, 120]) :=
+  C01_nextValue .cif2 .tdquote [97, 10, 0xD83D, 0xDE00] [32, 120] (by decide) (by decide) (by decide) (by decide)
 -- a triple-quoted table key followed by a text field:  {'''k''':⏎;text⏎;}   (after the `{`)
 example : ∃ l c, nextToken .cif2 ⟨renderValue .tsquote (a!"k") ++ 58 :: (renderWs [.eol] ++ (renderValue .text (a!"text") ++ (a!"}"))), 1, 1, .otable⟩ acceptAll []
     = .ok (⟨.key, (a!"k"), l, c⟩, ⟨renderWs [.eol] ++ (renderValue .text (a!"text") ++ (a!"}")), l, c, .key⟩) [] :=
